@@ -14,14 +14,17 @@ MODBASE = 0x40000000
 # ----------------------------------------------------------------------------- reference semantics
 # (written from the module documentation of walker.rs, independently of coq/C06/Model.v)
 INT_RE = re.compile(r"^[+-]?[0-9]+$")
+WS_RE = re.compile("[ \\t\\x0c]+")      # split_ascii_whitespace (\\n, \\r cannot occur inside a record line)
+
+
+def toks_of(text):
+    return [t for t in WS_RE.split(text) if t]
 
 
 def ref_parse(text, rules):
     """REG: EXPR REG: EXPR ...  -> updates rules (dict name -> token list); False if malformed"""
     cur, expr = None, []
-    for t in text.split(" "):
-        if t == "":
-            continue
+    for t in toks_of(text):
         if t.endswith(":"):
             if cur is not None:
                 if not expr:
@@ -99,8 +102,8 @@ def ref_eval(expr, callee, mem, cfa):
 
 def undocumented(text):
     """tokens whose meaning the documentation does not fix (a '$' that is not the first character)"""
-    return any("$" in t[1:] for t in text.split(" ") if t and not t.endswith(":")) or \
-        any("$" in t[1:-1] for t in text.split(" ") if t.endswith(":"))
+    return any("$" in t[1:] for t in toks_of(text) if not t.endswith(":")) or \
+        any("$" in t[1:-1] for t in toks_of(text) if t.endswith(":"))
 
 
 def ref_rules(initaddr, initsize, init, deltas, lookup):
@@ -252,24 +255,30 @@ class C06(PropBase):
             "CfiStackWalker (x86/amd64/arm64). Exhaustive: every expression of length <= L over the 17-token alphabet "
             "in each of the three rule positions (.cfa, .ra, a general register) x 6 environments (L=3 quick, 4 thorough on a "
             "sub-grid); random programs to length 24; random delta-record sets around the lookup address incl. duplicate "
-            "addresses; per-architecture expression grids for (B). Non-trivial = the walk succeeded (Some). distinct = distinct case lines")
+            "addresses; rule-isolation pairs (two or three general-register rules per walk); tab / form-feed / repeated separators, 2400-token programs and "
+            "650-character tokens; per-architecture expression grids and beyond-32-bit dereferences for (B). Non-trivial = the walk succeeded (Some). distinct = distinct case lines")
     trusted_base = [
         "Coq 8.16.1 kernel (vm_compute only in Examples / witness lemmas)",
-        "model C06/Model.v written by hand from walker.rs, mod.rs walk_frame, parser.rs finish_item, minidump-unwind lib.rs CfiStackWalker; tied to the code by the correspondence run",
-        "the re-tokenisation of the substring first..last is modelled as the token list collected between them (the slice bounds themselves are modelled and proved in range)",
+        "translate/c06_cfi_ops.py (Rust subset -> Gen/CfiOps.v: operator arms, default chain, label chain, walk skeleton, record selection; pins of parse_cfi_exprs' commit code, CfiReg / CfiRules derives, StackInfoCfi::memory_range and CfiStackWalker's nine FrameWalker callbacks) and translate/unwind_consts.py (register tables)",
+        "the hand-written parts of C06/Model.v that no translator regenerates: split_ascii_whitespace (is_ws), i64::from_str (parse_int), the HashMap as an association list, the slice bounds of commit, cfi_covers, the mock walker, memoize / width check of real_ops; tied to the code by the correspondence run",
         "nom parsing of the STACK CFI lines, RangeMap lookup of the INIT record and <arch>::get_caller_by_cfi post-processing are exercised by the harness, not proved (post-processing mirrored in C06/Driver.v post_real)",
         "extraction: ExtrOcamlBasic only; ocaml/zconv.ml + ocaml/c06/main.ml glue; harness/src/bin/c06.rs + harness/src/cfi_common.rs (mock FrameWalker, one-step walk_stack driver)",
     ]
     manifest = {
-        "text": "Theorems (Coq, all rule texts as byte strings, all walkers): STACK CFI evaluation never panics (slice bounds, unreachable!, rhs-1), "
-                "the result does not depend on the order in which non-.cfa/.ra rules are applied when targets do not alias, each documented failure makes exactly "
-                "its rule fail (mandatory rule -> None, other register -> cleared), expression evaluation equals an independent transcription of the documented "
-                "postfix semantics. Model tied to the code by exhaustive short programs in every rule position, random long programs and delta-record sets, through "
-                "a mock FrameWalker and through walk_stack on x86/amd64/arm64, debug and release; an independent Python reference interpreter judges every implementation answer.",
-        "note": "Trusted: Coq kernel; hand-written model (correspondence-checked); extraction + OCaml/Rust glue; nom line parsing and per-arch post-processing only exercised. No axioms.",
+        "text": "Theorems (Coq, all rule texts as byte strings, all walkers, both profiles): STACK CFI evaluation never panics (slice bounds, unreachable!, rhs-1, "
+                "wrapping_div/rem by zero), the result does not depend on the order in which non-.cfa/.ra rules are applied when targets do not alias, each documented "
+                "failure makes exactly its rule fail (mandatory rule -> None, other register -> cleared), a whole unwind step (INIT + delta records, lookup address) equals "
+                "an independent transcription of the documented semantics for the abstract walker and for CfiStackWalker on x86/amd64/arm64 (c06_refines_spec, "
+                "c06_real_walker_refines_spec), re-tokenising the kept substring yields the model's token lists (c06_retokenise). The evaluator these theorems speak about is "
+                "REGENERATED from walker.rs / mod.rs / parser.rs on every run (Gen/CfiOps.v: operator arms as statement lists, default chain, label chain, walk skeleton, "
+                "record selection) and proved equal to the hand model (c06_gen_model_is_model, c06_gen_*); the architecture tables are those of Gen/UnwindConsts.v "
+                "(c06_arch_tables_pinned). The extracted generated model is compared with the code on exhaustive short programs in every rule position, rule-isolation "
+                "pairs, random long programs, odd spacing / very long inputs, delta-record sets, through a mock FrameWalker and through walk_stack on x86/amd64/arm64 (incl. "
+                "dereferences beyond 32 bits), debug and release; an independent Python reference interpreter judges every implementation answer.",
+        "note": "Trusted: Coq kernel; translators; hand-written tokenizer / integer parser / walker tables (correspondence-checked); extraction + OCaml/Rust glue; nom line parsing and per-arch post-processing only exercised. No axioms.",
     }
     assumptions = ["tracing side effects not modelled",
-                   "non-ASCII rule text is rejected by the parser (from_utf8) before it reaches the evaluator; generators are ASCII",
+                   "non-ASCII rule text is rejected by the parser (from_utf8) before it reaches the evaluator; generators are ASCII (incl. \\t, \\x0b, \\x0c; \\n and \\r end the record line)",
                    "duplicate delta addresses are ordered by rule text (CfiRules' derived Ord), which the oracle adopts as the meaning of 'address order'"]
 
     def canon_model(self, case, ans):
@@ -379,6 +388,27 @@ class C06(PropBase):
             (w, regs, mb, mh) = rng.choice(self.ENVS)
             addA(w, 5, 0, 16, regs, mb, mh, text)
             dist["random_programs"] += 1
+        # the tokenizer: tabs / form feeds / runs of blanks / leading and trailing blanks between tokens, a vertical tab
+        # (not ASCII whitespace for split_ascii_whitespace) inside a token, very long tokens and very long programs
+        seps = [" ", "\t", "  ", "\x0c", " \t ", "\t\x0c "]
+        nsp = 400 if tier == "quick" else 4000
+        for _ in range(nsp):
+            n = rng.range(1, 8)
+            toks = [rng.choice(["8", "-1", "$r0", "r1", "+", "-", "*", "@", "^", ".cfa", "16", "junk", "8\x0b8", "2"]) for _i in range(n)]
+            body = [".cfa:", "16", ".ra:", "8", rng.choice(["$r3:", "r3:"])] + toks + (["r4:", "7"] if rng.chance(1, 2) else [])
+            text = rng.choice(["", " ", "\t", "  "]) + "".join(t + rng.choice(seps) for t in body[:-1]) + body[-1] + rng.choice(["", " ", "\t", " \x0c"])
+            (w, regs, mb, mh) = rng.choice(self.ENVS[:2])
+            addA(w, 5, 0, 16, regs, mb, mh, text)
+            dist["odd_spacing"] = dist.get("odd_spacing", 0) + 1
+        for k in range(12 if tier == "quick" else 60):
+            (w, regs, mb, mh) = self.ENVS[k % 2]
+            n = 200 * (k + 1)
+            long_prog = "1 " + " ".join(rng.choice(["1 +", "2 *", "$r0 -", "3 %", "r1 +"]) for _i in range(n))
+            deep = " ".join(["7"] * n) + " " + " ".join(["+"] * (n - 1 - (k % 2)))      # deep operand stack; odd k: one operand left over
+            long_tok = rng.choice(["9", "-9", "x", "$r"]) + "9" * (50 * (k + 1))
+            for e in (long_prog, deep, long_tok, long_tok + " 1 +"):
+                addA(w, 5, 0, 16, regs, mb, mh, rng.choice(self.positions(e)))
+                dist["long_inputs"] = dist.get("long_inputs", 0) + 1
         # delta-record sets
         pool = [".cfa: 24", ".cfa: $r0 8 +", ".ra: 5", ".ra: .cfa ^", "$r3: 7", "$r3: .undef", "r3: 9", "r4: r1 $r0 +",
                 "$r3: 1 r4: 2 .ra: 3", "r3: .undef", "$r3: r1", "r3: 4 $r3: .undef", "$r4: .undef", "$r4: 6", "8", "", "$r3:", "$nope: 1", ".cfa: .cfa", "$r5: 18446744073709551616", "r4: .cfa 8 - ^"]
